@@ -16,9 +16,9 @@ CONSTANTS
   MaxTotal = 0
   StepsFirst = FALSE
   Resources = {"at", "tcc"}
-  Bystanders = {FALSE, TRUE}
+  Bystanders = {FALSE}
   MaxLoss = 2
-  MaxAnnFail = 0
-  Shifts = {0, 1}
+  MaxAnnFail = 1
+  Shifts = {0}
 INVARIANTS Dump
 CHECK_DEADLOCK FALSE
